@@ -88,7 +88,7 @@ def read_lines(lines):
     out = []
     for l in lines:
         try:
-            out.append(sexpr.read(l))
+            out.append(sexpr.read(l, lower=False))    # case-preserving: the output must already be lower case
         except sexpr.Reject:
             out.append(("UNREADABLE", l))
     return out
